@@ -241,6 +241,8 @@ Loop:
 	if len(actions) == 0 {
 		return bad("no action specified")
 	}
+	// The same order as if the list were bound to a key
+	actions = previewWindowActionsFirst(actions)
 
 	select {
 	case server.actionChannel <- actions:
